@@ -17,6 +17,8 @@ U == <<"u">>            \* a non-ASCII key
 E == <<"e">>            \* the empty key ""
 EE == <<"e", "e">>      \* the key "."
 AE == <<"a", "e">>      \* the key "a."
+ABC == <<"a", "b", "c">> \* the single key "a.b.c"
+UMB == <<"u", "m", "b">> \* the single key "<unicode>.<metachars>.b"
 
 Docs == <<
   (* 1 *) Obj(<<Mem(A, Str(<<"w1", "w2">>))>>),
@@ -36,7 +38,10 @@ Docs == <<
   (* 15 *) Obj(<<Mem(AB, Obj(<<Mem(C, Num("nfrac"))>>)), Mem(A, Obj(<<Mem(C, Str(<<"w4", "w4">>))>>))>>),
   (* 16 *) Obj(<<Mem(C, Arr(<<Arr(<<Str(<<"w2", "w3">>)>>), Null, Bool(TRUE)>>)), Mem(U, Num("nexp"))>>),
   (* 17 *) Obj(<<Mem(AE, Str(<<"w2">>)), Mem(M, Obj(<<Mem(U, Str(<<"w4">>))>>))>>),
-  (* 18 *) Obj(<<Mem(Bk, Str(<<"w1", "w1", "w2">>)), Mem(C, Str(<<"w3">>))>>)
+  (* 18 *) Obj(<<Mem(Bk, Str(<<"w1", "w1", "w2">>)), Mem(C, Str(<<"w3">>))>>),
+  (* 19 *) Obj(<<Mem(ABC, Str(<<"w1">>))>>),
+  (* 20 *) Obj(<<Mem(C, Obj(<<Mem(ABC, Str(<<"w2", "w4">>))>>)), Mem(UMB, Num("n7"))>>),
+  (* 21 *) Obj(<<Mem(Bk, Arr(<<Obj(<<Mem(ABC, Bool(TRUE))>>), Obj(<<Mem(AB, Null)>>)>>))>>)
 >>
 
 \* The members the harness adds to every stored row: a unique id, its
